@@ -175,6 +175,33 @@ func ruleBuildParse(c *Check, rule string) {
 		} else if tr, f := boolCond(p, "isnil("+tp[0].Res+"#1)", -1); !f || !tr {
 			bad++
 			c.Bad(rule, pn+"/timestamp-error", "a timestamp parse error does not reject the name", c.pathPos(p), nil)
+		} else {
+			// time.Parse is lenient (it accepts a sign in the fraction): only a
+			// field that re-encodes to itself sorts like the time it carries
+			parsed := tp[0].Res + "#0"
+			canonical := false
+			for j := range p.Events {
+				e := &p.Events[j]
+				if e.Kind != "call" || e.Res == "" {
+					continue
+				}
+				uses := false
+				for _, a := range e.Args {
+					if a == parsed || strings.Contains(a, "("+parsed+")") {
+						uses = true
+					}
+				}
+				if !uses || !(strings.HasSuffix(e.Callee, "snapshot.NameTimestamp") || e.Callee == "(time.Time).Format" || e.Callee == "(time.Time).AppendFormat") {
+					continue
+				}
+				if p.State.RelOf("str", e.Res, tss) == EQ || p.State.RelOf("str", e.Res, wantArg) == EQ {
+					canonical = true
+				}
+			}
+			if !canonical {
+				bad++
+				c.Bad(rule, pn+"/timestamp-canonical", "a name is accepted without its timestamp field having been compared with the re-encoding of the parsed time: time.Parse tolerates non-canonical fields (a sign in the fraction), and such a name does not sort like the time it carries (the last name of a listing is then not the newest snapshot)", c.pathPos(p), describe(c, p))
+			}
 		}
 	}
 	if bad == 0 && nOK > 0 {
